@@ -56,11 +56,21 @@ Cfgs_C09q ==
     \cup { [Base EXCEPT !.naming = nm, !.age = "h", !.gran = 60] : nm \in {"Ts", "TsD"} }
 RepoFixes == AllFixes      \* deviations repaired in /repo (see known_findings.json)
 
+\* ---- C18 domain: reopen after external rename/remove, reset to another family
+Cfgs_C18 ==
+    { [Base EXCEPT !.naming = nm, !.size = 20, !.cap = cp] : nm \in Namings, cp \in {0, 16} }
+    \cup { [Base EXCEPT !.rot = FALSE, !.cap = cp] : cp \in {0, 16} }
+Cfgs_C18q ==
+    { [Base EXCEPT !.naming = nm, !.size = 20, !.cap = cp] : nm \in {"Num", "TsD"}, cp \in {0, 16} }
+    \cup { [Base EXCEPT !.rot = FALSE, !.cap = cp] : cp \in {0, 16} }
+Reset_C18 == { [Base EXCEPT !.naming = "NumD", !.size = 20], [Base EXCEPT !.rot = FALSE] }
+NoReset == {}
+
 \* state constraint: keep the directory and the counters small
 Bound == /\ Cardinality(DOMAIN dir) <= 6
          /\ \A n \in DOMAIN dir : n.r <= 2
 
 \* scenario generation: one line per distinct state (history hidden by the VIEW)
-View == <<dir, files, w, clk, cfg, logged, wt, runs, trigs, advs, gone, okgone, forced, extgone, exts>>
+View == <<dir, files, w, clk, cfg, logged, wt, runs, trigs, advs, gone, okgone, forced, extgone, exts, moved, olddirs, sws, needReopen>>
 Emit == GenHist => PrintT(<<"REPLAY", ToJson([cfg |-> cfg, t0 |-> T0, steps |-> hist])>>)
 =============================================================================
